@@ -72,7 +72,7 @@ theorem C03_plain_field (c : Ctx) (fid : Nat) (idx : List Nat) (s : DState) (f :
     unfold fieldStore
     rcases hty with h | h | h | h | ⟨h | h, _⟩ <;> simp [h]
   simp only [hst]
-  unfold fieldSpecial
+  unfold fieldSpecial msmSpecial harmSpecial
   simp [if_neg h394, if_neg h395, if_neg h396, if_neg h038]
 
 /-- a field that would end beyond the payload is refused, whatever its type -/
